@@ -1101,6 +1101,32 @@ def redis_pairs(W, cap):
     return v, len(scen)
 
 
+def inductive_session_map(W):
+    """Apalache: the reference's invariant is inductive and its action properties follow from it in one step, with no bound
+    on time or history length (SessionMapInd.tla). About the specification only; a tool that cannot run is reported, not fatal."""
+    d = W.path("apalache")
+    os.makedirs(d, exist_ok=True)
+    shutil.copy(os.path.join(W.specs, "SessionMapInd.tla"), d)
+    res = {}
+    for name, args in (("Init=>IndInv", ["--init=Init", "--inv=IndInv", "--length=0"]),
+                       ("IndInv/\\Next=>IndInv'", ["--init=IndInit", "--inv=IndInv", "--length=1"]),
+                       ("IndInv/\\Next=>ActionProps", ["--init=IndInit", "--inv=ActionProps", "--length=1"])):
+        try:
+            p = subprocess.run(["apalache-mc", "check", "--cinit=ConstInit", "--out-dir=" + os.path.join(d, "out")] + args + ["SessionMapInd.tla"],
+                               cwd=d, capture_output=True, text=True, timeout=600)
+        except (OSError, subprocess.TimeoutExpired) as e:
+            res[name] = "not run (%s)" % type(e).__name__
+            continue
+        if p.returncode == 0 and "NoError" in p.stdout:
+            res[name] = "holds"
+        elif p.returncode == 12:
+            raise Infra("SessionMapInd: %s fails -- the specification is wrong:\n%s" % (name, p.stdout[-1500:]))
+        else:
+            res[name] = "not run (apalache exit %d)" % p.returncode
+    log("[apalache] SessionMapInd (unbounded time, 3 ids): " + "; ".join("%s %s" % kv for kv in res.items()))
+    return res
+
+
 def c12(W, replay=None):
     W.build()
     if replay:
@@ -1124,6 +1150,8 @@ def c12(W, replay=None):
         rv, nr = redis_pairs(W, 400 if W.tier == "thorough" else 25)
         index.update(rv.pop("index"))
         vs.append(rv)
+        if W.tier == "thorough":
+            inductive_session_map(W)
     return judge("C12", W, vs, index, traces=len(scen), samples=[{"scenario": scen[0], "recorded_events": sample_events(trace, maxev=30)}],
                  assumptions=["results and the projected real state (probe) of the touched id are logged after every operation; miniredis stands in for Redis",
                               "the three named deviations of DESIGN.md 4.1 are allowed (ClearAbsentFails, ReadNothingMayNotTouch, BoundaryEither)"])
